@@ -41,6 +41,8 @@ func main() {
 			oracleMerge(os.Args[3], os.Args[4])
 		case "queue":
 			oracleQueue(os.Args[3], os.Args[4])
+		case "debounce":
+			oracleDebounce(os.Args[3], os.Args[4])
 		default:
 			fmt.Fprintln(os.Stderr, "unknown stream", os.Args[2])
 			os.Exit(2)
@@ -59,6 +61,8 @@ func execOps(stream, in, outp string) {
 		s = newMergeSUT()
 	case "queue":
 		s = newQueueSUT(0)
+	case "debounce":
+		s = newDebSUT(5, 20, true)
 	default:
 		fmt.Fprintln(os.Stderr, "unknown stream", stream)
 		os.Exit(2)
@@ -80,6 +84,8 @@ func gen(stream string, seed uint64, n int, outp string) {
 			genMergeCase(r, c, out)
 		case "queue":
 			genQueueCase(r, c, out)
+		case "debounce":
+			genDebounceCase(r, c, out)
 		default:
 			fmt.Fprintln(os.Stderr, "unknown stream", stream)
 			os.Exit(2)
